@@ -1092,11 +1092,120 @@ def matrix_correspondence(ctx):
     ctx.ob("C12_corr_matrices", bad == 0, "correspondence", f"{bad} disagreements" if bad else f"{len(lines)} matrices")
 
 
+# ----------------------------------------------------------------------------------
+# correspondence: operators of the theorems T12_conjugation_* / T12_stabilizer_state
+# (lean/QV/Model/CliffordSV.lean: pauliOp, Gate.mgate, runSV) <-> the real backends
+# ----------------------------------------------------------------------------------
+def row_matrix(n, row):
+    """numpy meaning of a tableau row: (-1)^r kron_k sigma(x_k, z_k)."""
+    lab = "".join("IXZY"[int(row[k]) + 2 * int(row[n + k])] for k in range(n))
+    return (-1) ** int(row[2 * n]) * pauli_of_label(lab)
+
+
+def statevector_correspondence(ctx):
+    """instance of T12_stabilizer_state on every run: the state vector of the Lean simulator
+    model (exact, over Z[i]) is proportional to the real state-vector result, every stabiliser
+    row of the model tableau fixes the model state (operator `pauliOp`, evaluated in Lean) and,
+    as a numpy matrix, the REAL state vector; `pauliOp` itself is compared with the real
+    `symplectic_matrix_to_generators` matrices on random integer vectors."""
+    from vlib.driver import parse_gi
+
+    rng = ctx.rng
+    nb = qgates.np_backend()
+    be = cliff_backend()
+    cases = []
+    pre = {1: [[], [("H", [0], 0)], [("SX", [0], 0)]],
+           2: [[("H", [0], 0), ("SX", [1], 0)], [("SX", [0], 0), ("H", [1], 0)], [("H", [0], 0), ("CNOT", [0, 1], 0), ("S", [1], 0)]],
+           3: [[("H", [0], 0), ("SX", [1], 0), ("H", [2], 0), ("S", [2], 0)], [("SX", [0], 0), ("H", [1], 0), ("CNOT", [1, 2], 0)]]}
+    for name in ALPH1 + ROT1:
+        for k in ([0] if name in ALPH1 else range(-4, 5)):
+            for n in (1, 2):
+                for q in range(n):
+                    for p in pre[n]:
+                        cases.append((n, p + [(name, [q], k)]))
+    for name in ALPH2 + ROT2:
+        for k in ([0] if name in ALPH2 else range(-3, 4)):
+            for n in (2, 3):
+                for a in range(n):
+                    for b in range(n):
+                        if a != b:
+                            for p in pre[n][: (3 if n == 2 else 1)]:
+                                cases.append((n, p + [(name, [a, b], k)]))
+    for i in range(200 if ctx.thorough else 60):
+        n = rng.randint(1, 5)
+        steps = []
+        for _ in range(rng.randint(1, 30)):
+            name = rng.choice(ALPH1 + ROT1 * 2 + ((ALPH2 + ROT2) * 2 if n > 1 else []))
+            qs = rng.sample(range(n), 1 if name in ALPH1 + ROT1 else 2)
+            steps.append((name, qs, rng.randint(-40, 40) if name in ROT1 + ROT2 else 0))
+        cases.append((n, steps))
+    cases = [(n, [st for st in steps if make_gate(*st).clifford]) for n, steps in cases]
+    lines = [f"SV {n} {len(steps)} " + " ".join(gate_token(make_gate(*st), st[2]) for st in steps) for n, steps in cases]
+    outs = run_driver(lines, driver=DRIVER)
+    bad = 0
+    for (n, steps), out in zip(cases, outs):
+        gs = [make_gate(*st) for st in steps]
+        ctx.case(("sv", n, tuple((st[0], tuple(st[1]), st[2]) for st in steps)))
+        ctx.stat(f"sv_n{n}")
+        parts = out.split("|")
+        ok_model = ok_state = ok_rows = len(parts) == 3
+        model = None
+        if ok_model:
+            model = parse_gi(parts[0])
+            flags = parts[1].strip()
+            rows = parse_tab(parts[2].split())
+            ok_model = flags == "1" * (n + 1)
+            psi = np.asarray(nb.execute_circuit(build(n, regen(gs))).state()) if gs else np.eye(1, 2**n)[0].astype(complex)
+            nrm = np.linalg.norm(model)
+            ok_state = bool(nrm > 0) and qgates.phase_equal(model / nrm, psi) and qgates.phase_equal(psi, sv_state(n, gs))
+            ok_rows = all(np.allclose(row_matrix(n, rows[n + i]) @ psi, psi, atol=TOL) for i in range(n))
+        if not (ok_model and ok_state and ok_rows):
+            bad += 1
+            what = ("a stabiliser row of the conjugation model does not fix the model state vector" if not ok_model else
+                    "state vector of the simulator model is not proportional to the real state-vector result" if not ok_state else
+                    "a stabiliser row of the conjugation model does not fix the real state-vector result")
+            if model is not None and not ok_state:
+                tail = (f"v = np.array({[complex(z) for z in model]!r})\nv = v / np.linalg.norm(v)\nk = np.argmax(abs(v)); ph = sv[k] / v[k]\n"
+                        "assert abs(abs(ph) - 1) < 1e-7 and np.allclose(sv, ph * v, atol=1e-9)\n")
+            else:
+                tail = ("r = CliffordBackend('numpy').execute_circuit(c)\ngens, phases = r.generators(return_array=True)\n"
+                        f"for gmat, ph in zip(np.asarray(gens)[{n}:], phases[{n}:]):\n    assert np.allclose(ph * gmat @ sv, sv, atol=1e-9)\n")
+            ctx.fail("statevector:model" if not ok_state else "state:model-stabilizers", f"{what}: {[gate_src(g) for g in gs]}",
+                     HEAD + circuit_src(n, gs) + "sv = NumpyBackend().execute_circuit(c).state()\n" + tail,
+                     expected="stabiliser rows fix the state vector", observed=out[:300], broken=["C12_corr_statevector"])
+    ctx.ob("C12_corr_statevector", bad == 0, "correspondence", f"{bad} disagreements of {len(lines)}" if bad else f"{len(lines)} circuits")
+    # pauliOp (the operator the theorems are about) against qibo's own reading of tableau rows
+    lines, meta = [], []
+    for i in range(120 if ctx.thorough else 40):
+        n = rng.randint(1, 4)
+        T = np.array([[rng.randint(0, 1) for _ in range(2 * n + 1)] for _ in range(2 * n + 1)], dtype=np.uint8)
+        gens, phases = be.symplectic_matrix_to_generators(T, return_array=True)
+        for j in rng.sample(range(2 * n), min(2 * n, 3)):
+            v = np.array([complex(rng.randint(-3, 3), rng.randint(-3, 3)) for _ in range(2**n)])
+            lines.append(f"PO {n} {''.join(str(int(b)) for b in T[j])} " + " ".join(f"{int(z.real)} {int(z.imag)}" for z in v))
+            meta.append((n, T[j].copy(), v, complex(phases[j]) * (np.asarray(gens[j]) @ v)))
+    outs = run_driver(lines, driver=DRIVER)
+    bad = 0
+    for (n, row, v, real), out in zip(meta, outs):
+        model = parse_gi(out)
+        ctx.case(("pauliop", n, row.tobytes(), v.tobytes()))
+        if model.shape != real.shape or not np.allclose(model, real, atol=TOL) or not np.allclose(row_matrix(n, row) @ v, real, atol=TOL):
+            bad += 1
+            ctx.fail("generators:row-operator", f"operator of the tableau row {row.tolist()} (n={n}) differs from the signed Pauli string (-1)^r kron sigma(x_k, z_k)",
+                     HEAD + f"T = np.zeros(({2 * n + 1}, {2 * n + 1}), dtype=np.uint8)\nT[0] = {row.tolist()}\n"
+                     "gens, phases = CliffordBackend('numpy').symplectic_matrix_to_generators(T, return_array=True)\n"
+                     f"v = np.array({[complex(z) for z in v]!r})\nexpected = np.array({[complex(z) for z in model]!r})\n"
+                     "assert np.allclose(phases[0] * np.asarray(gens[0]) @ v, expected, atol=1e-9)\n",
+                     expected=str(model.tolist()), observed=str(real.tolist()), broken=["C12_corr_pauliop"])
+    ctx.ob("C12_corr_pauliop", bad == 0, "correspondence", f"{bad} disagreements of {len(lines)}" if bad else f"{len(lines)} rows")
+
+
 def run(ctx):
     MODULES, THEOREMS = registry(PROP)
     ctx.theorems = THEOREMS
-    build_and_audit(ctx, PROP, MODULES, THEOREMS)
+    build_and_audit(ctx, PROP, list(MODULES) + ["QV.Model.Table"], THEOREMS)
     matrix_correspondence(ctx)
+    statevector_correspondence(ctx)
     gate_correspondence(ctx)
     measure_correspondence(ctx)
     flag_search(ctx)
@@ -1106,7 +1215,10 @@ def run(ctx):
     refusal_search(ctx)
     stim_search(ctx)
     to_circuit_search(ctx)
-    ctx.notes.append("tableau correspondence: every operation of _clifford_operations.py through CliffordBackend.execute_circuit(initial_state=T) on tableaux enumerating all local Pauli patterns, every placement n<=3 (sampled n=4,5), angles k*pi/2 (k*pi) |k|<=40, multi-step histories compared after every gate, measurement via sample_shots with the random outcomes fed to the model as coins, gate matrices vs gate.matrix(); "
+    ctx.notes.append("tableau correspondence: every operation of _clifford_operations.py through CliffordBackend.execute_circuit(initial_state=T) on tableaux enumerating all local Pauli patterns, every placement n<=3 (sampled n=4,5), angles k*pi/2 (k*pi) |k|<=40, multi-step histories compared after every gate, measurement via sample_shots with the random outcomes fed to the model as coins, gate matrices vs gate.matrix(), state vector of the simulator model (Gate.mgate / runSV over Z[i]) vs the real state-vector backend with every model stabiliser row (operator pauliOp evaluated in Lean, and as numpy matrix) fixing it, pauliOp vs symplectic_matrix_to_generators; "
                      "search: flag vs numeric Clifford test for every gate class (controlled_by versions, parameter sweeps, parameter updates), accepted circuits vs state vector (n<=5, depth<=30, initial_state, random_clifford), Born support of samples / frequencies / registers, exhaustive 2-qubit circuits, mid-circuit collapse histories, refusal of every non-Clifford class, stim engine, to_circuit AG04/BM20, copies and string forms")
-    ctx.assumptions.append("theorems: local conjugation U P = +-P' U for every operation and every local Pauli (complete: finite domain), row locality, symplectic invariance / tableau invariant for all n and all circuits, rowsum phase arithmetic; the assembled n-qubit operator identity, the correctness of measurement outcomes (Born support) and of AG04/BM20 are covered by correspondence and search only; stim is a third-party engine (search only)")
+    ctx.assumptions.append("theorems: local conjugation U P = +-P' U for every operation and every local Pauli (complete: finite domain), row locality, symplectic invariance / tableau invariant for all n and all circuits, rowsum phase arithmetic; "
+                           "assembled for every n: U_g P(w) = P(g.act w) U_g as operators on state vectors of the simulator model (T12_conjugation_all_qubits), lifted to circuits (rows of the tableau = conjugates of the initial rows; every stabiliser row fixes the state vector: T12_stabilizer_state); "
+                           "measurement: rowsum = operator product, the determined outcome of the first measurement after any circuit has Born probability 1 (T12_determined_outcome_born), in the random branch both outcomes have non-zero probability (T12_random_outcome_both_possible), both also for any tableau/state pair satisfying the invariants; "
+                           "NOT proved: that the tableau update of a random outcome keeps the invariants for the collapsed state (sequences of measurements after a random outcome: correspondence and search only), Gaussian-integer gate matrices equal the documented ones up to positive/unit scalars (compared on every run), correctness of AG04/BM20 (search only); stim is a third-party engine (search only)")
     ctx.trusted.append("numpy kron / matrix products as the meaning of Pauli strings and of U P U^dagger in the numeric Clifford test (tolerance 1e-9)")
